@@ -13,7 +13,8 @@ from .retrycheck import export_behaviours, replay_behaviours
 from .tlc import pick_cfg, run_tlc
 from .tracecheck import tlc_validate
 
-VARIANTS = [{"entry": "Policy", "permute": False}, {"entry": "AsyncPolicy", "permute": True},
+VARIANTS = [{"entry": "Policy", "permute": False, "flavours": "nocircuit"},
+            {"entry": "AsyncPolicy", "permute": True, "flavours": "nocircuit"},
             {"entry": "AsyncPolicy", "permute": False, "place": "ctor", "async_callbacks": True}]
 
 
